@@ -40,6 +40,11 @@ SPECIAL_CONTENTS = {'blank': '\n\n  \n\t\n\n\n', 'empty': '', 'comment': '// not
                     'one space': ' '}
 
 
+# files WITH findings whose text starts / ends with white space (the lines of the findings count from the first byte of the file)
+PADDINGS = {'leading blank lines': ('\n\n\n', ''), 'leading blanks and tabs': ('  \t \n \n', ''), 'trailing blank lines': ('', '\n\n\n  '),
+            'byte order mark-like space': ('\u00a0\n', '')}
+
+
 def file_text(names_with_findings, salt=0):
     pragma = 'pragma solidity ^0.8.16;' if 'floating_pragma' in names_with_findings else 'pragma solidity 0.8.16;'
     body = '\n'.join('    ' + SNIPPETS[n] for n in names_with_findings if SNIPPETS.get(n))
@@ -199,6 +204,9 @@ def materialise(tree_entries, root, findings_of, counter=None):
             counter[0] += 1
             if len(ent) > 3 and ent[3] in SPECIAL_CONTENTS:
                 open(p, 'w').write(SPECIAL_CONTENTS[ent[3]])
+            elif len(ent) > 3 and ent[3] in PADDINGS:
+                pre, post = PADDINGS[ent[3]]
+                open(p, 'w').write(pre + file_text(findings_of(ent[2]), counter[0]) + post)
             elif len(ent) > 3 and ent[3] == 'binary':
                 open(p, 'wb').write(b'\xff\xfe\x00 not utf-8 \x80\x81')
             else:
